@@ -145,7 +145,7 @@ CLAIMED = {
              'c15_shortest_path_judged_ok: the same for the implementation model (contains_node guards mirrored) on every graph '
              'reached by any build/removal history (via the C08 refinement). petgraph astar itself is NOT modelled step by step: '
              'its result is validated per generated input by this oracle, up to ties (translation validation). Props/C15Gen.lean: '
-             'shortest_path_is_model, c15gen_guards, c15gen_shortest_path_judged_ok, c15gen_astar_choice_irrelevant (with c15_accepted_same_weight / c15_some_none_exclusive: two accepted answers agree on path-or-none and on total weight) — the same statements about the generated '
+             'shortest_path_is_model, c15gen_guards, c15gen_shortest_path_judged_ok, c15gen_accepted_steps_are_edges (every step of an accepted path is an edge the generated contains_edge reports), c15gen_astar_choice_irrelevant (with c15_accepted_same_weight / c15_some_none_exclusive: two accepted answers agree on path-or-none and on total weight) — the same statements about the generated '
              'shortest_path (guards, astar as an external parameter, path copy) on every graph reached by the generated mutators (built and audited by the check of C08).',
         note='Trusted: Lean kernel; the oracle statements; rs2lean_ugraphfns.py and the petgraph primitives it writes against; the correspondence run (graphs from C08-style histories incl. cycles, zero '
              'weights, ties, self-loops, removals; all ordered pairs incl. absent end points); petgraph astar not proved; path sums < 2^63.',
